@@ -37,10 +37,10 @@ CONFIGS = {
     "BC": dict(cmake=["-DYACLIB_FLAGS=CORO", "-DYACLIB_CXX_STANDARD=20", "-DCMAKE_BUILD_TYPE=None",
                       "-DCMAKE_CXX_FLAGS=-O1 -g"],
                cxx=["-std=c++20", "-fcoroutines", "-O1", "-g"]),
-    # real threads under ThreadSanitizer
-    "TS": dict(cmake=["-DYACLIB_FLAGS=TSAN", "-DYACLIB_CXX_STANDARD=17", "-DCMAKE_BUILD_TYPE=None",
+    # real threads under ThreadSanitizer (no fault layer), C++20 with coroutines
+    "TS": dict(cmake=["-DYACLIB_FLAGS=TSAN;CORO", "-DYACLIB_CXX_STANDARD=20", "-DCMAKE_BUILD_TYPE=None",
                       "-DCMAKE_CXX_FLAGS=-O1 -g"],
-               cxx=["-std=c++17", "-O1", "-g", "-fsanitize=thread"]),
+               cxx=["-std=c++20", "-fcoroutines", "-O1", "-g", "-fsanitize=thread"]),
 }
 
 SRC_DIRS = ["include", "src", "cmake"]
